@@ -197,6 +197,37 @@ Meaningful(pfx, ins) ==
           [] p = 62  -> "seg" \in ins.use \/ "notrack" \in ins.use
           [] OTHER   -> "seg" \in ins.use
 
+\* Prefix bytes that are superfluous but whose effect is still architecturally determinate: a repeated 66 or 67 acts
+\* like a single one (GNU as pads with 66 66 2E 0F 1F 84 ...), and an operand-size, address-size or (single) segment
+\* prefix on an instruction that does not use it is ignored.  What stays outside: F0 on an instruction that cannot be
+\* locked (#UD), F2/F3 on an instruction that neither repeats nor takes them as mandatory prefix (reserved), F2 together
+\* with F3, several segment prefixes, and repetitions of those.  Determinate(pfx, ins) is the weakest condition under
+\* which Decode's result is "the instruction those bytes encode"; C01 compares exactly these strings.
+\* the SDM leaves the result of these undefined under a 16-bit operand size (and opcode maps disagree on the operand shown)
+UndefUnder66 == {"bswap"}
+RECURSIVE DedupSz(_,_)
+DedupSz(pfx, i) == IF i > Len(pfx) THEN <<>>
+                   ELSE IF pfx[i] \in {102, 103} /\ \E j \in 1..(i - 1) : pfx[j] = pfx[i] THEN DedupSz(pfx, i + 1)
+                   ELSE <<pfx[i]>> \o DedupSz(pfx, i + 1)
+Determinate(pfx, ins) ==
+   LET q == DedupSz(pfx, 1) IN
+   /\ NoDup(q)
+   /\ SegCount(q) <= 1
+   /\ ~(Has(q, 242) /\ Has(q, 243))
+   /\ \A i \in 1..Len(q) : LET p == q[i] IN
+        CASE p = 240 -> "lock" \in ins.use
+          [] p = 243 -> "rep" \in ins.use \/ "mp" \in ins.use
+          [] p = 242 -> "repcc" \in ins.use \/ "mp" \in ins.use
+          [] p = 102 -> "66" \in ins.use \/ ins.mn \notin UndefUnder66
+          [] OTHER   -> TRUE
+\* which superfluous-but-determinate prefixes a string carries (names the class of a disagreement on such a string)
+SupKinds(pfx, ins) ==
+   (IF DedupSz(pfx, 1) # pfx THEN {"repeated"} ELSE {})
+   \cup (IF Has(pfx, 102) /\ "66" \notin ins.use THEN {"unused66"} ELSE {})
+   \cup (IF Has(pfx, 103) /\ "67" \notin ins.use THEN {"unused67"} ELSE {})
+   \cup (IF \E i \in 1..Len(pfx) : SegOf(pfx[i]) # "" /\ "seg" \notin ins.use /\ ~(pfx[i] = 62 /\ "notrack" \in ins.use)
+         THEN {"unusedseg"} ELSE {})
+
 \* ------------------------------------------------------------------ equality of abstract instructions (DESIGN 3.5.3)
 CCAlias == << {"o"}, {"no"}, {"b","c","nae"}, {"ae","nb","nc"}, {"e","z"}, {"ne","nz"}, {"be","na"}, {"a","nbe"},
               {"s"}, {"ns"}, {"p","pe"}, {"np","po"}, {"l","nge"}, {"ge","nl"}, {"le","ng"}, {"g","nle"} >>
@@ -241,7 +272,16 @@ OperandDiff(a, b, os) ==
                 ELSE "")
      [] OTHER -> "kind"
 \* canonical operand list: int3 = int 3
-CanonOps(x) == IF x.mn = "int3" /\ x.ops = <<>> THEN <<[k |-> "imm", sz |-> 8, v |-> <<3>>]>> ELSE x.ops
+\* one-operand spellings of two-operand x87 register forms (GNU as reads `faddp st(4)` as `faddp st(4), st` and
+\* `fcomi st(2)` as `fcomi st, st(2)`): the implicit st(0) is supplied before operands are compared
+X87PopArith == {"faddp", "fmulp", "fsubp", "fsubrp", "fdivp", "fdivrp"}
+X87St0First == {"fcmovb", "fcmove", "fcmovbe", "fcmovu", "fcmovnb", "fcmovne", "fcmovnbe", "fcmovnu", "fcomi", "fcomip", "fucomi", "fucomip"}
+St0Like(o) == [o EXCEPT !.n = 0]
+IsSt(o) == o.k = "reg" /\ o.c = "st"
+CanonOps(x) == IF x.mn = "int3" /\ x.ops = <<>> THEN <<[k |-> "imm", sz |-> 8, v |-> <<3>>]>>
+               ELSE IF Len(x.ops) = 1 /\ IsSt(x.ops[1]) /\ x.mn \in X87PopArith THEN <<x.ops[1], St0Like(x.ops[1])>>
+               ELSE IF Len(x.ops) = 1 /\ IsSt(x.ops[1]) /\ x.mn \in X87St0First THEN <<St0Like(x.ops[1]), x.ops[1]>>
+               ELSE x.ops
 \* <<clause, operand index>> of the first difference, <<"",0>> when the same instruction
 InstrDiff(x, y) ==
    LET xo == CanonOps(x)  yo == CanonOps(y) IN
